@@ -289,7 +289,13 @@ def gen(rng):
         a = tmap(host, f) if rng.random() < 0.7 else bad
         b = copy.deepcopy(a) if rng.random() < 0.5 else gen_ty(rng, 1, [])
         c = gen_ty(rng, 1, [])
-    return {"a": a, "b": b, "c": c, "crates": crates, "wf": wf(a), "strategy": strat}
+    lt_name = rng.choice(["q", "'q", "a", "_", "'_", "static", "'static", "b"])
+    keys = [k for k in LTNAMES + ["zz"] if rng.random() < 0.5]
+    lt_map = [[k, rng.choice(["z", "'y", "a", "b", "x", "_", "static", "'static"])] for k in keys]
+    if keys and rng.random() < 0.2:
+        lt_map.append([keys[0], "dup"])     # a second entry for the same key: the first one counts
+    return {"a": a, "b": b, "c": c, "crates": crates, "wf": wf(a), "strategy": strat,
+            "lt_name": lt_name, "lt_map": lt_map}
 
 
 # ---------------------------------------------------------------------------------------------
@@ -451,6 +457,20 @@ def oracle(case, out):
         return "`==` on Type disagrees with structural equality of the inputs"
     if out["same_ab"] and not out["canon_eq_ab"]:
         return "equal types have different canonical forms"
+    # (3') lifetime names never matter for canonical forms (unless a rewrite introduces 'static)
+    def unq(n):
+        return n[1:] if n.startswith("'") else n
+    if "lt_name" in case:
+        if unq(case["lt_name"]) != "_" and out["has_implicit_after"]:
+            return "set_implicit_lifetimes left an implicit lifetime behind"
+        if unq(case["lt_name"]) != "static" and out["canon_set_implicit_a"] != out["canon_a"]:
+            return "set_implicit_lifetimes changed the canonical form"
+        if all(unq(v) != "static" for _, v in case["lt_map"]) and out["canon_rename_a"] != out["canon_a"]:
+            return "rename_lifetime_parameters changed the canonical form"
+        if out["has_implicit_a"] != any(l in ("Inferred", "Elided") for l in out["lifetimes_a"]):
+            return "has_implicit_lifetime_parameters disagrees with lifetime_parameters"
+        if out["named_lifetimes_a"] != [l["Named"] for l in out["lifetimes_a"] if isinstance(l, dict)]:
+            return "named_lifetime_parameters disagrees with lifetime_parameters"
     # (4) render -> parse is lossless (syn reads the rendered source back)
     if case.get("wf"):
         if out.get("reparse_a") != strip(a):
